@@ -113,6 +113,9 @@ func genArchive(r *Rng, thorough bool) (es []tEntry, many bool) {
 		nm := names[r.Intn(len(names))]
 		if many {
 			nm = fmt.Sprintf("f%d", i)
+		} else if r.Intn(8) == 0 {
+			// ordinary names that merely LOOK like an escape or a hidden entry
+			nm = []string{"..data", "...", "..a", ".h", "a..", "..."}[r.Intn(6)]
 		}
 		p := joinP(d, nm)
 		// also create implicit parents: sometimes pick a deeper path whose parents are not entries
